@@ -488,7 +488,11 @@ func (ur *UnitResult) discharge(opt Options) {
 			if ur.Quant && ans.Status != "unsat" {
 				// also with the quantified assumptions: an inconsistent axiom set must not go unnoticed
 				file2 := write(ur.Unit+"_cover_full", g.coverQueryFull())
-				ans2, _ := race(file2, opt.TimeoutMs, 1, opt.Solvers)
+				ct := opt.TimeoutMs / 4
+				if ct > 5000 {
+					ct = 5000
+				}
+				ans2, _ := race(file2, ct, 1, opt.Solvers)
 				if ans2.Status == "unsat" {
 					ur.Cover = "unsat"
 				}
